@@ -66,7 +66,7 @@ def check(ctx, config, rule, adt_suffix, floor):
             else:
                 ctx.violation(rule, fn, 'view', '%s must expose exactly the whole initialised contents of self (buf.ptr, len); it returns %s' % (fn, show(r.ret)[:100] if r.ret is not None else None), b.get('span'))
             continue
-        own = [e for e in r.events if len(e.stack) == 1 and e.kind == 'call']
+        own = [e for e in r.events if e.is_own() and e.kind == 'call']
         same = [e for e in own if (e.extra.get('trait_path') or '').split('::')[-1] == name and (e.extra.get('callee') or {}).get('trait') == tr
                 and not (len(e.args) == 2 and e.args[1][0] == 'agg' and e.args[1][1].endswith('RangeFull') and ((e.callee or '').endswith('::index') or (e.callee or '').endswith('::index_mut')))]
         # the String -> Vec -> slice chain forwards twice; the outermost own-frame call is what counts
